@@ -346,8 +346,12 @@ class PointwiseNorm(PointwiseTensorFieldOperator):
             gi *= gi.ufuncs.absolute().ufuncs.power(self.exponent - 2)
             if self.exponent >= 2:
                 # Any component that is zero is not divided with
+                # (done on the arrays, boolean indexing of elements is not
+                # possible for all spaces, e.g. with array weighting)
                 nz = (vf_pwnorm_fac.asarray() != 0)
-                gi[nz] /= vf_pwnorm_fac[nz]
+                gi_arr = gi.asarray()
+                gi_arr[nz] /= vf_pwnorm_fac.asarray()[nz]
+                gi[:] = gi_arr
             else:
                 # For exponents < 2 there will be a singularity if any
                 # component is zero. This results in inf or nan. See the
